@@ -150,6 +150,7 @@ func c03Run(c *engine.Ctx) {
 	c03Scalars(c)
 	universe.Scale(func(r universe.Recipe) { c03Case(c, r, "method") })
 	universe.IRIPresentations(func(r universe.Recipe) { c03Case(c, r, "pkg") })
+	moreFamilies(universe.Gob, func(r universe.Recipe) { c03Case(c, r, "pkg") })
 	for i := range universe.Structs {
 		s := &universe.Structs[i]
 		universe.GenericNames(s, universe.Gob, all)
